@@ -169,6 +169,8 @@ def py_elementwise(spec):
 	if form in ("vs", "sv"):
 		if b is None:
 			return ("unconstrained", "None scalar")
+		if isinstance(b, (list, tuple, dict, set)):
+			return ("unconstrained", "iterable is a sequence operand, not a scalar")
 		if form == "sv" and isinstance(b, (str, bytes)) and opname == "mod":
 			return ("unconstrained", "python string formatting")
 		pairs = [(x, b) if form == "vs" else (b, x) for x in a]
